@@ -86,6 +86,11 @@ pub struct HistoryCase {
 pub struct History;
 
 fn seed_of(base: u64, n: usize, k: usize) -> [u8; 32] {
+    // seed index 2 is a degenerate seed (all-zero or all-0xFF): a key generator that treats such a
+    // seed as "no seed given" and falls back to fresh entropy would not be deterministic there
+    if k == 2 {
+        return if base & 1 == 0 { [0u8; 32] } else { [0xFFu8; 32] };
+    }
     crate::util::seed32(base ^ mix(((n as u64) << 8) | k as u64))
 }
 
@@ -99,7 +104,7 @@ impl Sub for History {
     }
     fn strategy(&self, _env: &Env) -> BoxedStrategy<HistoryCase> {
         let n = prop_oneof![7 => Just(512usize), 1 => Just(1024usize)];
-        let step = (n, 0usize..2, 0u8..9, any::<u64>()).prop_map(|(n, k, kind, msg)| match kind {
+        let step = (n, prop_oneof![4 => 0usize..2, 1 => Just(2usize)], 0u8..9, any::<u64>()).prop_map(|(n, k, kind, msg)| match kind {
             0 | 1 => Step::Keygen { n, k },
             2 | 3 => Step::KeygenInThread { n, k },
             4 | 5 => Step::KeygenInChild { n, k },
@@ -209,7 +214,7 @@ impl Sub for History {
 }
 
 const META: Meta = Meta {
-    rule: "(1) bit flips: every one of the 256 seed bits of at least one Falcon-512 seed (enumerated) and generated (seed, bit) pairs for both variants: keygen(seed xor e_i) must differ from keygen(seed) as bytes; (2) histories of 4-8 steps over two seeds per variant, interpreted against a model map seed -> bytes of the first generation: Keygen (same thread), KeygenInThread (fresh thread), KeygenConcurrently (two threads at once), KeygenInChild (the harness re-executes itself), Sign (interleaved signing with a live key); every later generation of a seed must reproduce the first bytes. Non-trivial = a bit flip, or a history with a re-generation in another thread/process or after an interleaved sign; distinct by hash.",
+    rule: "(1) bit flips: every one of the 256 seed bits of at least one Falcon-512 seed (enumerated) and generated (seed, bit) pairs for both variants: keygen(seed xor e_i) must differ from keygen(seed) as bytes; (2) histories of 5-9 steps over two random seeds per variant plus a degenerate seed (all-zero / all-0xFF), interpreted against a model map seed -> bytes of the first generation: Keygen (same thread), KeygenInThread (fresh thread), KeygenConcurrently (two threads at once), KeygenInChild (the harness re-executes itself), Sign (interleaved signing with a live key); every later generation of a seed must reproduce the first bytes. Non-trivial = a bit flip, or a history with a re-generation in another thread/process or after an interleaved sign; distinct by hash.",
     assumptions: &[
         "'depends on nothing but the seed' is tested against the influences the harness can vary: thread, process, call history, prior signing; not the machine",
         "schedules are exercised by real threads, not enumerated (key generation has no shared mutable state)",
